@@ -133,15 +133,21 @@ def run_case(seed):
 
     cn = rng.randrange(3)
     big = (seed % 10 == 0)
+    deep = (seed % 10 == 5)
     if big:
         pf = big_plotfile(rng, cn)
+    elif deep:
+        # six levels, one 4-cell box each around the same mid-plane: the two sampled planes of level 5 are a 32nd of a coarse
+        # cell apart
+        pf = gen.gen_deep_plotfile(random.Random(seed * 31 + 1), nlevels=6, ndims=3, nfields=2, box=4)
+        c07.gen_payload(random.Random(seed * 31 + 2), pf, cn, random.Random(seed * 31 + 3).choice(['affine', 'affine', 'keep']))
     else:
         pf = gen.gen_plotfile(rng, ndims=3, payload=rng.choice(['ints', 'random']), max_blocks=2, nfields=(1, 4),
                               nlevels=rng.choice([1, 2, 2, 3]), geo_stream='exact', bf=rng.choice([2, 2, 4]),
                               mesh=rng.choice(['blocks', 'chunky']))
         c07.gen_payload(rng, pf, cn, rng.choice(['keep', 'keep', 'affine', 'const']))
     r2 = random.Random(seed * 739 + 11)
-    if not big and r2.random() < 0.35:
+    if not big and not deep and r2.random() < 0.35:
         # a field whose name merely CONTAINS the selector words 'all' / 'grid_level'
         nm = r2.choice(['wall_dist', 'small_scale', 'fall_off', 'my_grid_level_2'])
         if nm not in pf.fields:
@@ -151,19 +157,25 @@ def run_case(seed):
     gen.write_plotfile(pf, path)
     count(f"levels={pf.nlevels}")
     count(f"big={big}")
+    count(f"deep (six levels)={deep}")
     cx, cy = [a for a in range(3) if a != cn]
     for k in range(1 if big else 4):
         limit_arg = rng.choice([None, None] + list(range(pf.nlevels)))
         L = pf.nlevels - 1 if limit_arg is None else limit_arg
         # positions: mostly where every met box has both of its own planes; some in the known-finding regions
-        for _ in range(30):
+        if deep:
+            limit_arg = random.Random(seed * 31 + 4 + k).choice([None, None, 5, 4, 3])
+            L = pf.nlevels - 1 if limit_arg is None else limit_arg
+            kindp, P = 'mid-plane of the nested boxes', 16 * 2 ** L + random.Random(seed * 31 + 9 + k).choice([-3, -2, -1, 1, 2, 3])
+        else:
+          for _ in range(30):
             kindp, P = c07.gen_position(rng, pf, L, cn)
             if P is None or kindp == 'outside':
                 continue
             nf_, emp_ = classify(pf, L, cn, P)
             if (not nf_ and not emp_) or rng.random() < 0.08:
                 break
-        else:
+          else:
             continue
         near_face, empty = classify(pf, L, cn, P)
         u = Fraction(pf.dx(L)[cn]) / 8
@@ -224,6 +236,49 @@ def run_case(seed):
             continue
         if near_face or empty:
             continue
+        # ---- the same cut a few units in the last place ABOVE a cell centre (a position typed in decimals, or computed as
+        # low + (k + 0.5) * dx, lands there): to floating-point accuracy the same slice
+        rn = random.Random(seed * 5003 + k)
+        # (only where an eighth of a cell above is still a regular position: above the LAST cell centre of a box the
+        # plane is in the region of the known finding)
+        if kindp == 'centre' and classify(pf, L, cn, P + 1) == (False, False) and rn.random() < 0.7:
+            pos2 = pos
+            for _ in range(rn.randint(1, 3)):
+                pos2 = float(np.nextafter(pos2, np.inf))
+            outp2 = os.path.join(core.scratch_dir(f"c16_{seed}_out2"), 'slice2d')
+            os.makedirs(os.path.dirname(outp2))
+
+            def cut2():
+                with contextlib.redirect_stdout(io.StringIO()):
+                    return Mandoline(path, fields=fields, limit_level=limit_arg, serial=True,
+                                     verbose=0).slice(normal=cn, pos=pos2, outfile=outp2, fformat='plotfile')
+            res2 = core.outcome(cut2)
+            out['evals'] += 1
+            count("cut again a few ulp above a cell centre")
+            bad2 = None
+            if res2[0] != 'ok':
+                bad2 = 'raised: ' + res2[1]
+            else:
+                try:
+                    oc2 = oracle.contents_of_image(oracle.read_image(outp2))
+                    for lv in range(L + 1):
+                        a, b2 = oc['levels'][lv], oc2['levels'][lv]
+                        if a['boxes'] != b2['boxes']:
+                            bad2 = f"level {lv}: boxes {b2['boxes']} instead of {a['boxes']}"
+                            break
+                        for bx, d1, d2 in zip(a['boxes'], a['data'], b2['data']):
+                            sc = max(1.0, float(np.abs(d1).max()))
+                            if d1.shape != d2.shape or not np.allclose(d1, d2, rtol=1e-9, atol=1e-9 * sc, equal_nan=True):
+                                bad2 = f"level {lv} box {bx}: values differ from the slice at the cell centre itself by up to {float(np.nanmax(np.abs(d1 - d2)))!r}"
+                                break
+                        if bad2:
+                            break
+                except (ValueError, IndexError, KeyError) as e:
+                    bad2 = f'output is not a well-formed 2D plotfile: {e}'
+            if bad2:
+                out['violations'].append(dict(desc, kind='wrong-output', pos=pos2,
+                                              what=f'slice at {pos2!r}, {(pos2 - pos)!r} above the cell centre {pos!r}: ' + bad2))
+                continue
         # the model: boxes written per level with their two planes; distribution over files
         lsx = [[[list(lo), list(hi), [np.asarray(d[..., c], dtype='<f8').tobytes(order='F') for c in comps]]
                 for (lo, hi), d in zip(pf.levels[lv].boxes, pf.levels[lv].data)] for lv in range(L + 1)]
